@@ -14,7 +14,7 @@ Update == /\ More /\ Ev.op = "update" /\ Ev.raised = "None"
           /\ Step(Ev.x) /\ Counters /\ Stats /\ Adv
 ZeroSd == /\ More /\ Ev.op = "update" /\ Ev.raised = "ValueError" /\ Ev.counted
           /\ RejectZeroSd(Ev.x) /\ Counters /\ Adv
-Refused == /\ More /\ Ev.raised # "None" /\ ~Ev.counted /\ (UNCHANGED cusumvars \/ PendingReset) /\ Counters /\ Adv
+Refused == /\ More /\ Ev.op = "bad" /\ Ev.raised = "ValueError" /\ ~Ev.counted /\ (UNCHANGED cusumvars \/ PendingReset) /\ Counters /\ Adv
 Next == Update \/ ZeroSd \/ Refused
 Spec == Init /\ [][Next]_tvars
 ==========================================================================
